@@ -21,6 +21,12 @@ CLAIMED = {
         "callbacks are functions of the node; RANDOM_ORDER/UNORDERED compared as multisets",
         "DESIGN.md §6 C06",
     ),
+    "C09": (
+        "Lean 4 theorems (search loop with counter/break = filter+take; index access decision table) + differential correspondence",
+        "Theorems in lean/Nutree/Properties/C09.lean: the `_search` loop equals the matching nodes of the pre-order cut to the first k; find_first = head; index lookups with a limit are a prefix of the clone list; tree[key] resolves node_id, then data_id, then data with KeyError/Ambiguous/ValueError as specified. Tie: all small forests with clones x start nodes x patterns x limits x key kinds.",
+        "regex fullmatch is an abstract predicate tabulated with the real `re`; index exactness is C02",
+        "DESIGN.md §6 C09",
+    ),
     "C10": (
         "Lean 4 theorems (parent-chain model = path specification, under unique node ids) + differential correspondence",
         "Theorems in lean/Nutree/Properties/C10.lean: every relationship accessor, modelled as the implementation computes it (search of the parent by identity, parent-chain walks, identity index), equals its path-based specification on every tree with pairwise distinct node ids; pairs: descendant/ancestor = proper prefix, common ancestor = longest common prefix. Tie: exhaustive small-scope + random differential run (33 accessors per node, 3 per ordered pair), including ==-equal siblings.",
